@@ -69,7 +69,7 @@ def wrapper_contracts():
                'operator(old_collection.seq[k], attribute))',
                # nothing is pulled at call time
                'collection.pos == 0 and result.pos == 0'],
-      serves=('C13', 'C14', 'C04'))
+      serves=('C13', 'C14', 'C04', 'C11'))
     c(Q + 'count', params=dict(collection=TVal),
       ensures=['len(calls) == 1 and calls[0][0] == "contract:queries.count_"'
                ' and calls[0][1][0] == collection and result == calls[0][2]'])
